@@ -10,8 +10,8 @@ emit(forest, xml) -> (text, elements) where elements is the list of element reco
   dict(name, start, end, open=(s,e), close=(s,e)|None, attrs=[(name, ns, ne, raw, vs, ve)], children=[indices], parent=index|None)
 """
 
-PAIRED = ['div', 'span', 'tpl']
-LEAVES = ['br', 'x/', 'comment', 'cdata', 'pi', 'script', 'style', 'text']
+PAIRED = ['div', 'x:y-z', 'tpl']      # a plain name, a name with colon and dash, and the non-special script template
+LEAVES = ['br', 'x/', 'comment', 'cdata', 'pi', 'script', 'style', 'text', 'y /']
 LEAVES_SMALL = ['br', 'x/', 'comment', 'script', 'text', 'cdata']
 
 ATTR_SETS = [
@@ -80,7 +80,7 @@ def element_paths(forest, prefix=()):
     "paths of nodes that are elements able to carry attributes"
     out = []
     for i, (kind, ch, attrs) in enumerate(forest):
-        if kind in ('div', 'span', 'br', 'x/'):
+        if kind in ('div', 'x:y-z', 'br', 'x/', 'y /'):
             out.append(prefix + (i,))
         if ch:
             out += element_paths(ch, prefix + (i,))
@@ -106,7 +106,7 @@ def emit(forest, xml=False):
         out.append(s)
         pos[0] += len(s)
 
-    def open_tag(name, attrs, selfclose=False):
+    def open_tag(name, attrs, selfclose=False, space=False):
         s = pos[0]
         w('<' + name)
         recs = []
@@ -122,7 +122,7 @@ def emit(forest, xml=False):
                 vs = pos[0]
                 w(raw)
                 recs.append((an, ns, ne, raw, vs, pos[0]))
-        w('/>' if selfclose else '>')
+        w((' />' if space else '/>') if selfclose else '>')
         return (s, pos[0]), recs
 
     def node(nd, parent):
@@ -135,9 +135,9 @@ def emit(forest, xml=False):
         elements.append(rec)
         if parent is not None:
             elements[parent]['children'].append(idx)
-        if kind == 'x/':
-            rec['name'] = 'x'
-            rec['open'], rec['attrs'] = open_tag('x', attrs, True)
+        if kind in ('x/', 'y /'):
+            rec['name'] = kind[0]
+            rec['open'], rec['attrs'] = open_tag(kind[0], attrs, True, kind == 'y /')
             rec['close'] = None
         elif kind == 'br':
             rec['name'] = 'br'
